@@ -76,11 +76,24 @@ class Deep:
         """Shutdown deep."""
         if not self.started:
             return
-        self.trigger_handler.shutdown()
-        self.task_handler.flush()
-        self.poll.shutdown()
+        # a failure in one step must not prevent the remaining steps from being performed
+        try:
+            self.trigger_handler.shutdown()
+        except Exception:
+            deep.logging.exception("Failed to shutdown trigger handler")
+        try:
+            self.task_handler.flush()
+        except Exception:
+            deep.logging.exception("Failed to flush pending tasks")
+        try:
+            self.poll.shutdown()
+        except Exception:
+            deep.logging.exception("Failed to shutdown long poll")
         for plugin in self.config.plugins:
-            plugin.shutdown()
+            try:
+                plugin.shutdown()
+            except Exception:
+                deep.logging.exception("Failed to shutdown plugin %s", plugin)
         deep.logging.info("Deep is shutdown.")
         self.started = False
 
